@@ -109,6 +109,46 @@ theorem Avg.avg_ask_choice_exists (s : Avg.State α) (n : Nat) (h3 : s.npoints =
   · exact (Avg.freeSeeds_nodup s n).sublist (List.take_sublist _ _)
   · intro p hp; exact List.mem_of_mem_take hp
 
+theorem Scalar.divOpt_mono (x y : α) (t : Option α) (ht : ∀ u, t = some u → 0 < u) (h : x ≤ y) :
+    Scalar.divOpt x t ≤ Scalar.divOpt y t := by
+  cases t with
+  | none => simp [Scalar.divOpt]
+  | some u =>
+    simp only [Scalar.divOpt]
+    exact div_le_div_of_nonneg_right h (ht u rfl).le
+
+/-- C16.e'  outstanding requests can only lower the loss: for `min_npoints ≤ n ≤ m` the loss
+computed with `m` requested points is at most the one with `n` (the standard error shrinks
+like `1/√n`; positive tolerances, `sqrt` positive and monotone on positive arguments) -/
+theorem Avg.avg_loss_antitone (sqrt : α → α) (hpos : ∀ x, 0 < x → 0 < sqrt x)
+    (hmono : ∀ x y, 0 < x → x ≤ y → sqrt x ≤ sqrt y)
+    (s : Avg.State α) (n m : Nat) (sd : α) (h0 : 0 ≤ sd)
+    (hat : ∀ u, s.atol = some u → 0 < u) (hrt : ∀ u, s.rtol = some u → 0 < u)
+    (hn : s.minNpoints ≤ n) (hn0 : 0 < n) (hnm : n ≤ m) (hsd : Avg.std sqrt s = some sd) :
+    ∃ a b, Avg.lossN sqrt s m = some a ∧ Avg.lossN sqrt s n = some b ∧ a ≤ b := by
+  refine ⟨_, _, Avg.avg_loss_formula sqrt s m sd (by omega) hsd,
+    Avg.avg_loss_formula sqrt s n sd hn hsd, ?_⟩
+  have hnp : (0 : α) < (n : α) := by exact_mod_cast hn0
+  have hle : (n : α) ≤ (m : α) := by exact_mod_cast hnm
+  have hs : sqrt (n : α) ≤ sqrt (m : α) := hmono _ _ hnp hle
+  have hse : sd / sqrt (m : α) ≤ sd / sqrt (n : α) :=
+    div_le_div_of_nonneg_left h0 (hpos _ hnp) hs
+  apply max_le_max (Scalar.divOpt_mono _ _ _ hat hse)
+  split
+  · exact Scalar.divOpt_mono _ _ _ hrt hse
+  · exact div_le_div_of_nonneg_right (Scalar.divOpt_mono _ _ _ hrt hse) (abs_nonneg _)
+
+/-- C16.e''  hence `loss(real=False) ≤ loss(real=True)` once `min_npoints` values are held -/
+theorem Avg.avg_loss_pending_le (sqrt : α → α) (hpos : ∀ x, 0 < x → 0 < sqrt x)
+    (hmono : ∀ x y, 0 < x → x ≤ y → sqrt x ≤ sqrt y)
+    (s : Avg.State α) (sd : α) (h0 : 0 ≤ sd)
+    (hat : ∀ u, s.atol = some u → 0 < u) (hrt : ∀ u, s.rtol = some u → 0 < u)
+    (hn : s.minNpoints ≤ s.npoints) (hn0 : 0 < s.npoints) (hsd : Avg.std sqrt s = some sd) :
+    ∃ a b, Avg.loss sqrt s false = some a ∧ Avg.loss sqrt s true = some b ∧ a ≤ b := by
+  have := Avg.avg_loss_antitone sqrt hpos hmono s s.npoints (Avg.nRequested s) sd h0 hat hrt hn hn0
+    (by unfold Avg.nRequested; omega) hsd
+  simpa [Avg.loss] using this
+
 end AvgLearner
 
 /-! Non-vacuity (AverageLearner): a concrete history over ℚ exercising the ignored re-tell,
@@ -131,6 +171,9 @@ example : Avg.askPoints (Avg.tellPending exAvg 4) 2 [5, 3] = some [5, 3] ∧
     Avg.askPoints (Avg.tellPending exAvg 4) 2 [3, 4] = none := by decide +kernel
 
 example : ∀ x : ℝ, 0 ≤ x → Real.sqrt x * Real.sqrt x = x := fun _ hx => Real.mul_self_sqrt hx
+-- the hypotheses of C16.e' on `sqrt` hold for the real square root
+example : (∀ x : ℝ, 0 < x → 0 < Real.sqrt x) ∧ ∀ x y : ℝ, 0 < x → x ≤ y → Real.sqrt x ≤ Real.sqrt y :=
+  ⟨fun _ hx => Real.sqrt_pos.2 hx, fun _ _ _ h => Real.sqrt_le_sqrt h⟩
 
 end AvgExamples
 
